@@ -21,6 +21,9 @@ pub enum Op {
   Send,
   Recv,
   RecvMultipart,
+  /// (REP histories only) a connected requester that has nothing outstanding goes away;
+  /// the reference automaton does not move
+  PeerLeaves,
 }
 
 #[derive(Clone, Copy, Debug, Serialize, Deserialize, PartialEq, Eq)]
@@ -129,6 +132,7 @@ async fn req_body(c: &ReqCase) -> L2 {
         Ok(_) => Res::Ok,
         Err(e) => classify(&e),
       },
+      Op::PeerLeaves => continue,
     };
     history.push((*op, res));
     if !matches!(verdict, L2::Ok) {
@@ -169,6 +173,7 @@ async fn req_body(c: &ReqCase) -> L2 {
       (St::Expecting, Op::Recv, Res::InvalidState) | (St::Expecting, Op::RecvMultipart, Res::InvalidState) => {
         verdict = v("valid_call_rejected", format!("REQ: recv after a successful send was rejected; history {:?}", history));
       }
+      (_, Op::PeerLeaves, _) => {}
     }
     if let L2::Violation(vv) = &verdict {
       // A recv that timed out since the last successful send puts rzmq's REQ back into the sending
@@ -216,7 +221,7 @@ fn rep_case_strategy() -> impl Strategy<Value = RepCase> + Clone {
   (
     prop::sample::select(vec![Transport::Inproc, Transport::Tcp, Transport::Ipc]),
     1u8..4,
-    prop::collection::vec(prop_oneof![3 => Just(Op::Send), 3 => Just(Op::Recv), 1 => Just(Op::RecvMultipart)], 1..12),
+    prop::collection::vec(prop_oneof![6 => Just(Op::Send), 6 => Just(Op::Recv), 2 => Just(Op::RecvMultipart), 3 => Just(Op::PeerLeaves)], 1..12),
   )
     .prop_map(|(transport, n_peers, ops)| RepCase { transport, n_peers, ops })
 }
@@ -253,6 +258,13 @@ async fn rep_body(c: &RepCase) -> L2 {
       let _ = req.close().await;
     }));
   }
+  // idle bystanders for Op::PeerLeaves: connected, never send
+  let mut bystanders = Vec::new();
+  for _ in 0..c.ops.iter().filter(|o| **o == Op::PeerLeaves).count().min(4) {
+    if let Ok(b) = stack::connected(&ctx, "REQ", &ep, &[]).await {
+      bystanders.push(b);
+    }
+  }
   tokio::time::sleep(Duration::from_millis(200)).await;
   let mut pending: Option<Vec<u8>> = None; // request awaiting its reply (reference state)
   let mut history: Vec<(Op, Res)> = Vec::new();
@@ -270,6 +282,14 @@ async fn rep_body(c: &RepCase) -> L2 {
           Ok(()) => Res::Ok,
           Err(e) => classify(&e),
         }
+      }
+      Op::PeerLeaves => {
+        if let Some(b) = bystanders.pop() {
+          let _ = b.close().await;
+          tokio::time::sleep(Duration::from_millis(120)).await;
+        }
+        history.push((*op, Res::Ok));
+        continue;
       }
       Op::Recv | Op::RecvMultipart => {
         let r = if *op == Op::Recv { rep.recv().await.map(|m| m.data().unwrap_or(&[]).to_vec()) } else { rep.recv_multipart().await.map(|f| f.first().map(|m| m.data().unwrap_or(&[]).to_vec()).unwrap_or_default()) };
@@ -573,7 +593,7 @@ impl WithSig for L2 {
 }
 
 pub fn run(run: &mut Run) {
-  run.rule = "REQ: histories of 1..11 calls from {send, recv, recv_multipart} by one task against a scripted REP that answers 75% of the requests (RCVTIMEO 60 ms), judged step by step by the reference automaton Ready -send ok-> Expecting -recv ok-> Ready (any other call: invalid-state error, nothing changes; a timed-out recv changes nothing); REP: the mirror image with 1..3 requesters whose replies carry the request id; forced races: two tasks on a 4-thread runtime call REQ.send (REP.recv) at once while a process-wide schedule-point callback holds both behind the state check. parked pairs: two recv / recv_multipart calls (any combination) parked on an idle REP from two tasks before or after two requests arrive, and two REQ.send calls parked while no peer is connected, on current-thread and multi-thread runtimes. Non-trivial = the history contains an out-of-turn call (or the two racing calls met at the barrier / overlapped). Distinct = hash of the case".into();
+  run.rule = "REQ: histories of 1..11 calls from {send, recv, recv_multipart} by one task against a scripted REP that answers 75% of the requests (RCVTIMEO 60 ms), judged step by step by the reference automaton Ready -send ok-> Expecting -recv ok-> Ready (any other call: invalid-state error, nothing changes; a timed-out recv changes nothing); REP: the mirror image with 1..3 requesters whose replies carry the request id, interleaved with idle peers leaving (which must not move the automaton); forced races: two tasks on a 4-thread runtime call REQ.send (REP.recv) at once while a process-wide schedule-point callback holds both behind the state check. parked pairs: two recv / recv_multipart calls (any combination) parked on an idle REP from two tasks before or after two requests arrive, and two REQ.send calls parked while no peer is connected, on current-thread and multi-thread runtimes. Non-trivial = the history contains an out-of-turn call (or the two racing calls met at the barrier / overlapped). Distinct = hash of the case".into();
   run.assumptions = vec![
     "a call that fails for a reason other than the state (timeout, would-block) leaves the state unchanged - except when the peer the request went to detaches (documented)".into(),
     "forced races serialise on a process-wide lock because the schedule-point callback is global".into(),
